@@ -26,8 +26,17 @@ def _content(rng, path):
     return rng.choice(G.ids_for(lang, SHAPES))
 
 
+_MODEL_ONLY = False
+EXOTIC = ["!src/a.py", "!lib/f.c", "**/a.py", "src/**", "!src/deep/e.java", "/a.py", "?.cs", "!b.js", "lib/*", "!lib/g.cpp"]
+
+
 def _patterns(rng):
-    return rng.sample(PATTERNS, rng.randint(0, 3))
+    pats = rng.sample(PATTERNS, rng.randint(0, 3))
+    if not _MODEL_ONLY and rng.random() < 0.2:
+        # forms outside the C11 model (negation, **, ?, leading /): the cached-vs-fresh
+        # differential needs no model; the C11 sub-oracle is skipped for such scans
+        pats += rng.sample(EXOTIC, rng.randint(1, 3))
+    return pats
 
 
 def random_op(rng, files, weights):
@@ -36,7 +45,11 @@ def random_op(rng, files, weights):
     n = G.nonce(rng)
     if k == "write":
         p = rng.choice(files)
-        return {"op": "write", "path": p, "content": _content(rng, p)}
+        op = {"op": "write", "path": p, "content": _content(rng, p)}
+        if rng.random() < 0.2:
+            # a back-dated copy (cp -p, tar x, rsync -a): new content, old modification time
+            op["mtime_delta"] = -rng.choice((2, 3600, 86400 * 30, 86400 * 800))
+        return op
     if k == "delete":
         return {"op": "delete", "path": rng.choice(files + ["src", "lib", "src/deep"])}
     if k == "rename":
@@ -50,10 +63,13 @@ def random_op(rng, files, weights):
             b = stem + "_x" + rng.choice(list(EXT.values()))
         else:
             b = rng.choice(files)
-        return {"op": "rename", "src": a, "dst": b}
+        op = {"op": "rename", "src": a, "dst": b}
+        if rng.random() < 0.3:
+            op["overwrite"] = True   # mv a b over an existing b
+        return op
     if k == "swap":
         a, b = rng.sample(files, 2)
-        return {"op": "swap", "a": a, "b": b}
+        return {"op": "swap", "a": a, "b": b, "by_rename": rng.random() < 0.5}
     if k == "touch":
         return {"op": "touch", "path": rng.choice(files)}
     if k == "edit":
@@ -86,7 +102,7 @@ def random_op(rng, files, weights):
     if k == "scan":
         op = {"op": "scan", "nonce": n}
         if rng.random() < 0.3:
-            op["spelling"] = rng.choice(("dot", "rel_parent", "abs", "dotdot", "abs_dotdot", "rel_outside", "trailing"))
+            op["spelling"] = rng.choice(("dot", "rel_parent", "abs", "dotdot", "abs_dotdot", "rel_outside", "trailing", "symlink", "symlink_abs"))
         if rng.random() < 0.1:
             op["verbose"] = True
         return op
@@ -157,6 +173,8 @@ def small_history(j):
 
 
 def gen(i, R, tier, model_only_patterns=False):
+    global _MODEL_ONLY
+    _MODEL_ONLY = model_only_patterns
     rng = stream(R, "world")
     sw = stream(R, "swarm")
     if tier == "thorough" and i < small_count():
